@@ -610,6 +610,15 @@ func runWitness(bin, witness, harness string) string {
 	if strings.Contains(witness, "-hang-") {
 		limit = "12" // a candidate non-termination: the native run is given 12 s (the engine spent its whole step budget)
 	}
+	out := runWitnessLimit(bin, witness, harness, limit)
+	if strings.Contains(witness, "-hang-") && strings.Contains(out, "TIMEOUT") {
+		// confirm on a second, longer run before calling it a hang (a loaded machine can make one run slow)
+		out = runWitnessLimit(bin, witness, harness, "40")
+	}
+	return out
+}
+
+func runWitnessLimit(bin, witness, harness, limit string) string {
 	cmd := exec.Command("timeout", "-k", "2", limit, bin, "-test.run", "^TestVerifReplay$", "-test.v")
 	cmd.Dir = filepath.Dir(bin)
 	cmd.Env = append(os.Environ(), "VERIF_WITNESS="+witness, "VERIF_HARNESS="+harness)
